@@ -8,22 +8,34 @@ from vlib.harness import Outcome, TOL_W, scale_of
 
 ID = "C01"
 TITLE = "Lattice weight constraint returns kernels meeting every strict shape constraint"
-RULE = ("Hypothesis draws a lattice shape (rank 1-4, sizes 2-4, <= 256 "
-        "vertices; thorough rank <= 5, sizes <= 5, <= 1024), a valid constraint "
-        "configuration (monotonicities, Edgeworth/trapezoid trusts of both "
-        "directions with monotone or free conditional feature, matching or "
-        "not, approximately enforced families alongside in about half of the "
-        "cases, one/two-sided bounds, iterations in {0,1,2,5,10,20}), units "
+RULE = ("Hypothesis draws a lattice shape (rank 1-4 with rank >= 2 in three "
+        "quarters of the draws, sizes 2-4 and in one case of five one "
+        "dimension of size 5-6, <= 256 vertices; thorough rank <= 5, sizes <= "
+        "5 resp. 5-8, <= 1024), a valid constraint configuration "
+        "(monotonicities, Edgeworth/trapezoid trusts of both directions with "
+        "monotone or free conditional feature, matching or not, approximately "
+        "enforced families alongside in about half of the cases and in half "
+        "of the cases with trusts, a constructed rank-4 class with two "
+        "trapezoid trusts sharing a conditional feature plus one that does "
+        "not, one/two-sided bounds, iterations in {0,1,2,5,10,20}), units "
         "1-3, an entry point (LatticeConstraints strict, Lattice layer "
         "constraint, Lattice.finalize_constraints() in strict and non-strict "
-        "mode, lattice_lib.finalize_constraints) and a kernel (random mixture, "
-        "certified-feasible, feasible plus one injected violation). The "
-        "returned kernel is measured per unit by the float64 constraint rows. "
-        "Non-trivial: some strict family is configured and the input violates "
-        "one of them by > 10x tolerance, or the case is a non-constant "
-        "feasible kernel (unchanged clause); distinct by SHA-1 of the case.")
+        "mode, lattice_lib.finalize_constraints), eager or inside tf.function "
+        "(one case in twelve, lattices of <= 64 vertices), a documented "
+        "spelling of the hyper-parameters (int/string monotonicities, "
+        "unimodalities and trust directions, monotonicities=None when no "
+        "dimension is monotone, list/tuple containers, a single trust tuple "
+        "for the layer), float32 or (one case in eight) float64 layer and "
+        "kernel, and a kernel (random "
+        "mixture, certified-feasible, feasible plus one injected violation of "
+        "a strict inequality, feasible plus one vertex / one whole unit "
+        "pushed beyond ONE bound). The returned kernel is measured per unit "
+        "by the float64 constraint rows. Non-trivial: some strict family is "
+        "configured and the input violates one of them by > 10x tolerance, "
+        "or the case is a non-constant feasible kernel (unchanged clause); "
+        "distinct by SHA-1 of the case.")
 NT_FLOOR = 0.5
-BUDGET = {"quick": 450, "thorough": 5000}
+BUDGET = {"quick": 400, "thorough": 5000}
 TECHNIQUE = ("property-based testing (Hypothesis): generated configurations and "
              "kernels against float64 constraint-row oracle; certified "
              "NNLS-feasible kernels for the unchanged clause")
@@ -36,34 +48,157 @@ LEVEL_TEXT = ("Generated-input exploration of the strict weight constraint over 
               "and in the wiring of the layer; cannot show absence.")
 LEVEL_NOTE = ("Tolerance 2e-5*S with S=max(1,|result|,|bounds|) for "
               "inequalities, S incl. input for the unchanged clause. Shapes "
-              "bounded as stated in the rule. Documented exemption (several "
-              "trapezoid trusts sharing a conditional feature with Edgeworth "
-              "present) is not judged. Known finding F-C01-1 is matched by "
-              "signature.")
+              "bounded as stated in the rule. Documented exemption: with "
+              "Edgeworth trusts present, the trapezoid inequalities of the "
+              "trusts whose conditional feature is shared by >= 2 trapezoid "
+              "trusts are not judged (all other trapezoid trusts of the same "
+              "configuration are). float32 kernels, float64 layer and kernel "
+              "in one case of eight. Known finding "
+              "F-C01-1 is matched by signature.")
 
 ENTRIES = ["constraint", "constraint", "layer_constraint", "layer_finalize",
            "layer_finalize_nonstrict", "lib_finalize"]
 STRICT = ("mono", "ew", "tz")
+KMODES = ["raw"] * 4 + ["feasible"] * 2 + ["feasible+viol"] * 2 + [
+    "feasible+bound", "feasible+shift"]
+BOUND_KMODES = ("feasible+bound", "feasible+shift")
+APPROX = ("mdom", "rdom", "jmono", "junimod")
+
+
+def _prod(sizes):
+  return int(np.prod(sizes))
+
+
+@st.composite
+def _sizes(draw, tier):
+  """Shape: rank >= 2 in 3 of 4 draws, one dimension of size >= 5 in 1 of 5."""
+  big = tier == "thorough"
+  maxw = 1024 if big else 256
+  min_rank = draw(st.sampled_from([1, 2, 2, 2]))
+  sizes = draw(S.lattice_sizes(max_rank=5 if big else 4,
+                               max_size=5 if big else 4,
+                               max_weights=maxw, min_rank=min_rank))
+  if draw(st.sampled_from([False] * 4 + [True])):
+    i = draw(st.integers(0, len(sizes) - 1))
+    sizes[i] = draw(st.sampled_from([5, 6, 7, 8] if big else [5, 5, 6]))
+    while _prod(sizes) > maxw:
+      rest = [j for j in range(len(sizes)) if j != i]
+      j = max(rest, key=lambda q: sizes[q])
+      if sizes[j] > 2:
+        sizes[j] -= 1
+      else:
+        sizes.pop(j)
+        i -= 1 if j < i else 0
+  return sizes
+
+
+@st.composite
+def _bounds(draw, cfg, modes=("none", "min", "max", "both", "both")):
+  bm = draw(st.sampled_from(list(modes)))
+  lo = S.f32(draw(st.sampled_from([-10.0, -1.0, 0.0, 0.5, 100.0])))
+  width = S.f32(draw(st.sampled_from([0.5, 1.0, 3.0, 1000.0])))
+  cfg["omin"] = lo if bm in ("min", "both") else None
+  cfg["omax"] = S.f32(lo + width) if bm in ("max", "both") else None
+
+
+@st.composite
+def _tzshare_cfg(draw):
+  """Rank-4 configuration with Edgeworth trusts, two trapezoid trusts sharing a
+  conditional feature (documented exemption) and a third trapezoid trust whose
+  conditional feature is not shared (still claimed by the statement)."""
+  m1, m2, c, c2 = draw(st.permutations([0, 1, 2, 3]))
+  sizes = [draw(st.sampled_from([2, 2, 3])) for _ in range(4)]
+  cfg = {"sizes": sizes, "mono": [0] * 4, "unimod": [0] * 4, "ew": [],
+         "tz": [], "mdom": [], "rdom": [], "jmono": [], "junimod": [],
+         "omin": None, "omax": None}
+  cfg["mono"][m1] = cfg["mono"][m2] = 1
+  for d in (c, c2):
+    cfg["mono"][d] = draw(st.sampled_from([0, 0, 0, 1]))
+  dirs = {(m, cc): draw(st.sampled_from([-1, 1]))
+          for m in (m1, m2) for cc in (c, c2)}
+  m3 = draw(st.sampled_from([m1, m2]))
+  cfg["tz"] = [[m1, c, dirs[(m1, c)]], [m2, c, dirs[(m2, c)]],
+               [m3, c2, dirs[(m3, c2)]]]
+  pairs = sorted(dirs)
+  picks = draw(st.lists(st.sampled_from(pairs), min_size=1, max_size=2,
+                        unique=True))
+  cfg["ew"] = [[m, cc, dirs[(m, cc)]] for m, cc in picks]
+  draw(_bounds(cfg))
+  return cfg
+
+
+@st.composite
+def _add_approx(draw, cfg):
+  """Adds one approximately enforced family next to configured trusts."""
+  n = len(cfg["sizes"])
+  mono_dims = [d for d in range(n) if cfg["mono"][d] == 1]
+  free3 = [d for d in range(n) if cfg["mono"][d] == 0 and
+           cfg["unimod"][d] == 0 and cfg["sizes"][d] >= 3]
+  fams = ["jmono"]
+  if len(mono_dims) >= 2:
+    fams += ["mdom", "rdom", "rdom"]
+  if free3:
+    fams += ["junimod", "junimod"]
+  fam = draw(st.sampled_from(fams))
+  if fam in ("mdom", "rdom"):
+    a, b = draw(st.permutations(mono_dims))[:2]
+    if [a, b] not in cfg[fam] and [b, a] not in cfg[fam]:
+      cfg[fam].append([a, b])
+  elif fam == "jmono":
+    a, b = draw(st.permutations(list(range(n))))[:2]
+    if [a, b] not in cfg["jmono"]:
+      cfg["jmono"].append([a, b])
+  elif not cfg["junimod"]:
+    k = draw(st.integers(1, min(2, len(free3))))
+    cfg["junimod"].append([list(draw(st.permutations(free3))[:k]),
+                           draw(st.sampled_from(["valley", "peak"]))])
+
+
+@st.composite
+def _spell(draw, cfg):
+  """One of the documented spellings of the hyper-parameters."""
+  sp = {"sizes": draw(st.sampled_from(["list", "list", "tuple"])),
+        "mono": draw(st.sampled_from(["int", "int", "str", "tuple"])),
+        "unimod": draw(st.sampled_from(["int", "str"])),
+        "trust_dir": draw(st.sampled_from(["int", "int", "str"])),
+        "trust_inner": draw(st.sampled_from(["tuple", "tuple", "list"])),
+        "trust_outer": draw(st.sampled_from(["list", "list", "tuple"])),
+        "trust_single": draw(st.booleans())}
+  if not any(cfg["mono"]) and draw(st.booleans()):
+    sp["mono"] = "none"
+  if not any(cfg["unimod"]) and draw(st.sampled_from([False] * 3 + [True])):
+    sp["unimod"] = "zeros"
+  return sp
 
 
 @st.composite
 def _case(draw, tier):
-  big = tier == "thorough"
-  sizes = draw(S.lattice_sizes(max_rank=5 if big else 4,
-                               max_size=5 if big else 4,
-                               max_weights=1024 if big else 256))
-  approx = draw(st.booleans())
-  cfg = draw(S.lattice_config(sizes, approx=approx))
+  if draw(st.sampled_from([False] * 24 + [True])):
+    cfg = draw(_tzshare_cfg())
+  else:
+    sizes = draw(_sizes(tier))
+    approx = draw(st.booleans())
+    cfg = draw(S.lattice_config(sizes, approx=approx))
+    if (cfg["ew"] or cfg["tz"]) and draw(st.booleans()):
+      draw(_add_approx(cfg))
   units = draw(st.sampled_from([1, 1, 2, 3]))
-  n = int(np.prod(sizes))
+  n = _prod(cfg["sizes"])
+  kmode = draw(st.sampled_from(KMODES))
+  if kmode in BOUND_KMODES and cfg["omin"] is None and cfg["omax"] is None:
+    draw(_bounds(cfg, modes=("min", "max", "both", "both")))
   return {
       "cfg": cfg, "units": units,
       "iters": draw(st.sampled_from([0, 1, 2, 5, 10, 20])),
       "entry": draw(st.sampled_from(ENTRIES)),
-      "kmode": draw(st.sampled_from(["raw", "raw", "feasible",
-                                     "feasible+viol"])),
+      "kmode": kmode,
       "kernel": draw(S.array_desc(shape=(n, units))),
       "aux": draw(S.seeds),
+      "spell": draw(_spell(cfg)),
+      # a traced case costs ~10x an eager one (the Dykstra body is unrolled
+      # in python over all constraint groups), so the traced variant is drawn
+      # for one case in twelve and for lattices of <= 64 vertices only.
+      "graph": n <= 64 and draw(st.sampled_from([False] * 11 + [True])),
+      "f64": draw(st.sampled_from([False] * 7 + [True])),
   }
 
 
@@ -71,13 +206,26 @@ def strategy(tier):
   return _case(tier)
 
 
-def exempt_tz(cfg):
-  """Documented exemption: >= 2 trapezoid trusts share a conditional feature
-  while Edgeworth trusts are present."""
+def tz_shared_conds(cfg):
+  """Conditional features used by >= 2 distinct trapezoid trusts while Edgeworth
+  trusts are present: the documented exemption covers the trapezoid trusts on
+  these conditional features (and only them)."""
   if not cfg["ew"]:
-    return False
-  conds = [tuple(t)[1] for t in set(tuple(t) for t in cfg["tz"])]
-  return len(conds) != len(set(conds))
+    return set()
+  conds = [t[1] for t in set(tuple(t) for t in cfg["tz"])]
+  return set(c for c in conds if conds.count(c) > 1)
+
+
+def tz_violation(cfg, w, skip_conds):
+  """Largest trapezoid violation over the trusts whose conditional feature is
+  not in skip_conds; None when no such trust exists."""
+  worst = None
+  for _, tag, r in R.constraint_rows(cfg, ("tz",)):
+    if tag[1] in skip_conds:
+      continue
+    v = -sum(c * w[k] for k, c in r.items())
+    worst = max(worst or 0.0, v, 0.0)
+  return worst
 
 
 def feasible_kernel(cfg, raw, aux, families=None):
@@ -138,33 +286,193 @@ def inject_violation(cfg, k32, aux):
   return k.astype(np.float32)
 
 
+def inject_bound(cfg, k32, aux, whole_unit):
+  """Pushes one vertex (or one whole unit) of a feasible kernel beyond ONE of
+  the configured bounds by 1e-3..50 x S; everything else stays feasible."""
+  rs = np.random.RandomState(aux + 2)
+  k = k32.astype(np.float64).copy()
+  sides = [sd for sd, b in (("min", cfg["omin"]), ("max", cfg["omax"]))
+           if b is not None]
+  side = sides[rs.randint(len(sides))]
+  u = rs.randint(k.shape[1])
+  sc = scale_of(k, cfg["omin"], cfg["omax"])
+  amount = sc * 10.0 ** rs.uniform(-3.0, 1.7)
+  if whole_unit:
+    # the whole unit lies beyond the bound (its shape constraints stay intact)
+    if side == "max":
+      k[:, u] += cfg["omax"] - k[:, u].min() + amount
+    else:
+      k[:, u] -= k[:, u].max() - cfg["omin"] + amount
+  else:
+    idx = rs.randint(k.shape[0])
+    k[idx, u] = cfg["omax"] + amount if side == "max" else cfg["omin"] - amount
+  return k.astype(np.float32), side
+
+
+_MONO_STR = {0: "none", 1: "increasing"}
+_UNIMOD_STR = {0: "none", 1: "valley", -1: "peak"}
+_DIR_STR = {1: "positive", -1: "negative"}
+_DEFAULT_SPELL = {"sizes": "list", "mono": "int", "unimod": "int",
+                  "trust_dir": "int", "trust_inner": "tuple",
+                  "trust_outer": "list", "trust_single": False}
+
+
+def spelled_kwargs(cfg, spell, layer):
+  """kwargs for Lattice / LatticeConstraints in the drawn (documented) spelling.
+
+  `layer` says whether the receiver is tfl.layers.Lattice (the only place that
+  documents a single trust tuple instead of a list of tuples).
+  """
+  sp = dict(_DEFAULT_SPELL)
+  sp.update(spell or {})
+  kw = {"lattice_sizes": (tuple if sp["sizes"] == "tuple" else list)(
+      cfg["sizes"])}
+  mono = list(cfg["mono"])
+  if sp["mono"] == "none" and not any(mono):
+    kw["monotonicities"] = None
+  elif sp["mono"] == "str":
+    kw["monotonicities"] = [_MONO_STR[m] for m in mono]
+  elif sp["mono"] == "tuple":
+    kw["monotonicities"] = tuple(mono)
+  else:
+    kw["monotonicities"] = mono
+  unimod = list(cfg.get("unimod") or [0] * len(mono))
+  if any(unimod) or sp["unimod"] == "zeros":
+    kw["unimodalities"] = ([_UNIMOD_STR[v] for v in unimod]
+                           if sp["unimod"] == "str" else unimod)
+  for key, name in (("ew", "edgeworth_trusts"), ("tz", "trapezoid_trusts")):
+    if not cfg.get(key):
+      continue
+    inner = list if sp["trust_inner"] == "list" else tuple
+    trusts = [inner([m, c, _DIR_STR[d] if sp["trust_dir"] == "str" else d])
+              for m, c, d in cfg[key]]
+    if layer and sp["trust_single"] and len(trusts) == 1:
+      kw[name] = tuple(trusts[0])
+    elif sp["trust_outer"] == "tuple":
+      kw[name] = tuple(trusts)         # "iterable of three-element tuples"
+    else:
+      kw[name] = trusts
+  for key, name in (("mdom", "monotonic_dominances"),
+                    ("rdom", "range_dominances"),
+                    ("jmono", "joint_monotonicities")):
+    if cfg.get(key):
+      kw[name] = [tuple(t) for t in cfg[key]]
+  if cfg.get("junimod"):
+    kw["joint_unimodalities"] = [(tuple(d), s) for d, s in cfg["junimod"]]
+  kw["output_min"] = cfg.get("omin")
+  kw["output_max"] = cfg.get("omax")
+  return kw
+
+
+def spell_labels(cfg, spell, entry):
+  sp = dict(_DEFAULT_SPELL)
+  sp.update(spell or {})
+  labels = []
+  lib = entry == "lib_finalize"
+  layer = entry.startswith("layer")
+  if sp["sizes"] == "tuple":
+    labels.append("spell:sizes=tuple")
+  if sp["mono"] == "none" and not any(cfg["mono"]):
+    labels.append("spell:monotonicities=None")
+  elif sp["mono"] == "tuple":
+    labels.append("spell:monotonicities=tuple")
+  elif sp["mono"] == "str" and not lib:
+    labels.append("spell:monotonicities=strings")
+  if not lib:
+    if any(cfg["unimod"]) and sp["unimod"] == "str":
+      labels.append("spell:unimodalities=strings")
+    if not any(cfg["unimod"]) and sp["unimod"] == "zeros":
+      labels.append("spell:unimodalities=all-zero-list")
+    if cfg["ew"] or cfg["tz"]:
+      if sp["trust_dir"] == "str":
+        labels.append("spell:trust-direction=strings")
+      if sp["trust_inner"] == "list":
+        labels.append("spell:trust=inner-lists")
+      if sp["trust_outer"] == "tuple":
+        labels.append("spell:trusts=tuple-of-trusts")
+      if layer and sp["trust_single"] and (
+          len(cfg["ew"]) == 1 or len(cfg["tz"]) == 1):
+        labels.append("spell:single-trust-tuple")
+  return labels
+
+
+class LibraryFailure(Exception):
+  """A tensorflow_lattice error raised while tracing with AutoGraph.
+
+  AutoGraph re-raises errors of converted library code from generated files,
+  so the harness cannot attribute them by traceback; the error text still
+  names the library file ("in user code: File .../tensorflow_lattice/...").
+  """
+
+
+def _traced(fn, *args):
+  try:
+    return fn(*args)
+  except Exception as e:  # pylint: disable=broad-except
+    if "/tensorflow_lattice/" in str(e):
+      raise LibraryFailure("%s: %s" % (type(e).__name__, str(e)[:400]))
+    raise
+
+
 def apply_entry(case, k32):
   import tensorflow as tf
   import tensorflow_lattice as tfl
   cfg, units = case["cfg"], case["units"]
-  kw = S.lattice_kwargs(cfg)
   entry = case["entry"]
+  spell = case.get("spell")
+  graph = bool(case.get("graph"))
+  n = k32.shape[0]
+  # float64 layer / kernel: the same (float32-representable) values.
+  dt = tf.float64 if case.get("f64") else tf.float32
+  k32 = k32.astype(dt.as_numpy_dtype)
+  spec = [tf.TensorSpec([n, units], dt)]
   if entry == "constraint":
     c = tfl.lattice_layer.LatticeConstraints(
         num_projection_iterations=case["iters"],
-        enforce_strict_monotonicity=True, **kw)
+        enforce_strict_monotonicity=True,
+        **spelled_kwargs(cfg, spell, layer=False))
+    # Keras applies a weight constraint inside the traced train function.
+    if graph:
+      return _traced(tf.function(c.__call__, input_signature=spec),
+                     tf.constant(k32)).numpy()
     return c(tf.constant(k32)).numpy()
   if entry == "lib_finalize":
-    return tfl.lattice_lib.finalize_constraints(
-        tf.constant(k32), lattice_sizes=list(cfg["sizes"]),
-        monotonicities=list(cfg["mono"]),
-        edgeworth_trusts=[tuple(t) for t in cfg["ew"]] or None,
-        trapezoid_trusts=[tuple(t) for t in cfg["tz"]] or None,
-        output_min=cfg["omin"], output_max=cfg["omax"]).numpy()
+    # lattice_lib documents canonical values only ({0, 1}, tuples with +-1);
+    # the containers (list / tuple, None for "no monotonicity") still vary.
+    sp = spell or {}
+    kw = spelled_kwargs(
+        cfg, {"sizes": sp.get("sizes", "list"),
+              "mono": "int" if sp.get("mono") == "str" else sp.get(
+                  "mono", "int")}, layer=False)
+
+    def lib(w):
+      return tfl.lattice_lib.finalize_constraints(
+          w, lattice_sizes=kw["lattice_sizes"],
+          monotonicities=kw["monotonicities"],
+          edgeworth_trusts=kw.get("edgeworth_trusts"),
+          trapezoid_trusts=kw.get("trapezoid_trusts"),
+          output_min=cfg["omin"], output_max=cfg["omax"])
+    if graph:
+      return _traced(tf.function(lib, input_signature=spec),
+                     tf.constant(k32)).numpy()
+    return lib(tf.constant(k32)).numpy()
   layer = tfl.layers.Lattice(
       units=units, num_projection_iterations=case["iters"],
-      monotonic_at_every_step=(entry != "layer_finalize_nonstrict"), **kw)
+      monotonic_at_every_step=(entry != "layer_finalize_nonstrict"),
+      dtype=dt.name, **spelled_kwargs(cfg, spell, layer=True))
   d = len(cfg["sizes"])
   layer.build((None, d) if units == 1 else (None, units, d))
   layer.kernel.assign(k32)
   if entry == "layer_constraint":
+    if graph:
+      return _traced(tf.function(
+          lambda: layer.kernel.constraint(layer.kernel))).numpy()
     return layer.kernel.constraint(layer.kernel).numpy()
-  layer.finalize_constraints()
+  if graph:
+    # graph mode: finalize_constraints() returns the assign_add op.
+    _traced(tf.function(lambda: layer.finalize_constraints()))
+  else:
+    layer.finalize_constraints()
   return layer.kernel.numpy()
 
 
@@ -197,6 +505,7 @@ def run_case(case):
   has_bounds = cfg["omin"] is not None or cfg["omax"] is not None
   k32 = raw
   feasible = False
+  bound_side = None
   if kmode != "raw":
     fk = feasible_kernel(cfg, raw, case["aux"])
     if fk is None:
@@ -207,18 +516,40 @@ def run_case(case):
     if kmode == "feasible+viol":
       k32 = inject_violation(cfg, fk, case["aux"])
       feasible = bool(np.array_equal(k32, fk))
+    elif kmode in BOUND_KMODES:
+      k32, bound_side = inject_bound(cfg, fk, case["aux"],
+                                     whole_unit=kmode == "feasible+shift")
+      feasible = bool(np.array_equal(k32, fk))
   out.label("entry:" + case["entry"], "kernel:" + kmode,
             "units:%d" % units, "rank:%d" % len(cfg["sizes"]),
             "iters:%d" % case["iters"])
+  trusts = bool(cfg["ew"] or cfg["tz"])
   if cfg["ew"] and cfg["tz"]:
     out.label("trust:both")
-  elif cfg["ew"] or cfg["tz"]:
+  elif trusts:
     out.label("trust:one-kind")
-  if any(cfg[f] for f in ("mdom", "rdom", "jmono", "junimod")) or any(
-      cfg["unimod"]):
+  if any(cfg[f] for f in APPROX) or any(cfg["unimod"]):
     out.label("approx-families-alongside")
+  if trusts:
+    for f in APPROX:
+      if cfg[f]:
+        out.label("approx:%s+trust" % f)
   if has_bounds:
     out.label("bounded")
+  if max(cfg["sizes"]) >= 5:
+    out.label("size>=5")
+  if case.get("graph"):
+    out.label("graph:tf.function")
+  if case.get("f64"):
+    out.label("dtype:float64")
+  out.label(*spell_labels(cfg, case.get("spell"), case["entry"]))
+  if bound_side is not None and not feasible:
+    two = cfg["omin"] is not None and cfg["omax"] is not None
+    out.label("inject:%s beyond output_%s only" % (
+        "whole unit" if kmode == "feasible+shift" else "one vertex",
+        bound_side))
+    if trusts and two:
+      out.label("inject:one-sided bound violation + trusts + two-sided bounds")
 
   k64 = k32.astype(np.float64)
   s_in = scale_of(k64, cfg["omin"], cfg["omax"])
@@ -227,7 +558,15 @@ def run_case(case):
     v = R.violation_by_family(cfg, k64[:, u], STRICT)
     in_viol = max([in_viol] + [v.get(f, 0.0) for f in STRICT + ("bounds",)])
 
-  res = apply_entry(case, k32).astype(np.float64)
+  try:
+    res = apply_entry(case, k32).astype(np.float64)
+  except LibraryFailure as e:
+    # same verdict as the harness gives to an eager library exception
+    out.nontrivial = True
+    out.label("exception")
+    out.violate(str(e), kind="exception", exc=str(e).split(":")[0],
+                where="traced with tf.function")
+    return out
   out.checks += 1
   if res.shape != (n, units) or not np.all(np.isfinite(res)):
     out.violate("result has shape %s / non-finite values" % (res.shape,),
@@ -241,15 +580,23 @@ def run_case(case):
   tol = TOL_W * s_out
   lib_entry = case["entry"] == "lib_finalize"
   judged = list(STRICT)
-  skip_tz = exempt_tz(cfg)
+  shared = tz_shared_conds(cfg)
+  if shared:
+    out.label("exempt:shared-cond-trapezoid")
+    if any(t[1] not in shared for t in cfg["tz"]):
+      out.label("tz:unshared trust judged next to exempt ones")
   worst = 0.0
   for u in range(units):
     v = R.violation_by_family(cfg, res[:, u], STRICT)
+    if "tz" in v and shared:
+      # documented exemption: only the trusts on a shared conditional feature.
+      rest = tz_violation(cfg, res[:, u], shared)
+      if rest is None:
+        del v["tz"]
+      else:
+        v["tz"] = rest
     for fam in judged:
       if fam not in v:
-        continue
-      if fam == "tz" and skip_tz:
-        out.label("exempt:shared-cond-trapezoid")
         continue
       out.checks += 1
       worst = max(worst, v[fam] / s_out)
